@@ -724,6 +724,8 @@ pub fn c08(c: &mut Ctx) {
         let mut disabled_at: Option<u64> = None;
         let tells: Vec<(&OpRec, u64)> = h.sends_to(a).filter(|o| o.tag.is_tell() && o.ret_ok() && !o.self_send()).map(|o| (o, o.ret.as_ref().unwrap().0)).collect();
         let kills: Vec<u64> = h.kills(a).iter().filter(|o| o.who.actor_ctx() != Some(a)).filter_map(|o| o.ret.as_ref().map(|r| r.0)).collect();
+        let self_kills: Vec<u64> = h.kills(a).iter().filter(|o| o.who.actor_ctx() == Some(a)).filter_map(|o| o.ret.as_ref().map(|r| r.0)).collect();
+        let self_tells: Vec<(&OpRec, u64)> = h.sends_to(a).filter(|o| o.tag.is_tell() && o.ret_ok() && o.self_send()).map(|o| (o, o.ret.as_ref().unwrap().0)).collect();
         let stop_enter = ar.stop_enter().map(|s| s.0);
         for (idx, (seq, _, e)) in ar.hooks.iter().enumerate() {
             match e {
@@ -744,6 +746,24 @@ pub fn c08(c: &mut Ctx) {
                     for k in &kills {
                         if k < seq && step_of(*k) != step_of(*seq) && stop_enter.map(|s| s > *seq).unwrap_or(true) {
                             c.v("C08", "on_run-while-kill-pending", *seq, format!("actor {a}: on_run made progress ({e:?}) although kill() had returned at seq {k}"));
+                        }
+                    }
+                    // what the actor's own hooks did to it (kill / tell through their own reference) is visible to the loop
+                    // before the *next round* of on_run begins, even inside the same poll: the loop looks at both channels
+                    // first. (The round in progress may go on: it is only pre-empted at its await points.)
+                    if matches!(e, HookEv::RunEnter(_)) {
+                        for k in &self_kills {
+                            if k < seq && stop_enter.map(|s| s > *seq).unwrap_or(true) {
+                                c.v("C08", "on_run-while-kill-pending", *seq, format!("actor {a}: a new on_run round began ({e:?}) although one of its own hooks had killed the actor at seq {k}"));
+                            }
+                        }
+                        for (o, r) in &self_tells {
+                            if r < seq {
+                                let he = h.msgs.get(&o.mid.unwrap()).and_then(|m| m.henter.first().map(|x| x.0));
+                                if he.map(|x| x > *seq).unwrap_or(true) {
+                                    c.v("C08", "on_run-while-message-waiting", *seq, format!("actor {a}: a new on_run round began ({e:?}) while message {} (sent by one of its own hooks, accepted at seq {r}) was waiting", o.mid.unwrap()));
+                                }
+                            }
                         }
                     }
                 }
